@@ -167,3 +167,38 @@ pub fn issue(proto: Proto, km: &KeyMat, nonce: &[u8; 32], payload: &[u8], footer
         Proto::V1P => None,
     }
 }
+
+/// ECDSA public-key recovery for a v3.public token: the compressed public key, other than `signer_pk`
+/// where possible, under which the token's signature verifies for the message layout chosen
+/// (`with_pk`: PAE(pk, h, m, f, i) with pk = the signer's key; otherwise PAE(h, m, f, i)).
+pub fn recover_p384(token: &str, signer_pk: &[u8], assertion: Option<&str>, with_pk: bool, recid: u8) -> Option<Vec<u8>> {
+    use ecdsa::RecoveryId;
+    use p384::ecdsa::{Signature, VerifyingKey};
+    use p384::elliptic_curve::sec1::ToEncodedPoint;
+    let t = crate::faults::Tok::parse(token)?;
+    if t.proto()? != Proto::V3P || t.payload.len() < 96 {
+        return None;
+    }
+    let (m, sig) = t.payload.split_at(t.payload.len() - 96);
+    let f = t.footer.clone().unwrap_or_default();
+    let i = assertion.unwrap_or("").as_bytes();
+    let h = Proto::V3P.header();
+    let m2 = if with_pk { pae(&[signer_pk, h.as_bytes(), m, &f, i]) } else { pae(&[h.as_bytes(), m, &f, i]) };
+    let sig = Signature::from_slice(sig).ok()?;
+    let mut found: Vec<Vec<u8>> = vec![];
+    for id in 0..4u8 {
+        if let Some(rid) = RecoveryId::from_byte(id) {
+            if let Ok(vk) = VerifyingKey::recover_from_msg(&m2, &sig, rid) {
+                let c = vk.to_encoded_point(true).as_bytes().to_vec();
+                if c != signer_pk && !found.contains(&c) {
+                    found.push(c);
+                }
+            }
+        }
+    }
+    if found.is_empty() {
+        None
+    } else {
+        Some(found[recid as usize % found.len()].clone())
+    }
+}
